@@ -346,6 +346,9 @@ pub enum ClientOp {
     SubscribeFor { h: u16, topic: u8 },
     UnsubscribeFor { h: u16, topic: u8 },
     BrokerPing { topic: u8 },
+    /// stop the topic's broker (an on-demand service) and wait until it has terminated: by awaiting its
+    /// address (`wait`), or without anybody awaiting it (watching `stopped()`)
+    BrokerHalt { topic: u8, wait: bool },
     Feed { stream: u8, n: u8 },
     EndStream { stream: u8 },
     Sleep(u32),
